@@ -73,7 +73,7 @@ var specs = []string{
 	"", "[OPTIONS]", "[OPTIONS] X", "[OPTIONS] X Y", "X...", "X [Y]", "[X] Y", "-a", "[-a]", "[-a] X", "-a... X", "[-a...] X", "[-ab]", "[-ab] [-n]", "[-ab] -n",
 	"-n", "[-n]", "-n... X", "[-n]... X", "[-o]", "-o...", "[-o...] X", "-o X", "[-o] X...", "(-a | -b)", "(-a | -b)...", "(-a X) | (-b Y)", "[-a | -b] X",
 	"-- X", "[-a] -- X...", "X -- Y", "[ -- ]... X", "(-- X) | (-- X Y)", "-a [-b] X...", "[-abn]", "[-a [-b]]", "-a=<flag> X", "--num=<n> [X]", "--along", "[--along] [--out]... X",
-	"(-a -b)... X", "[-n X]...", "X... Y", "[X...] [Y]", "[OPTIONS] -- X...", "[-o | -n] [X]", "-a - ", "[", "]", "X |", "[]", "()", "-z", "Z", "[-a", "-a...|", "X -- -a", "OPTIONS", "x",
+	"(-a -b)... X", "[-n X]...", "X -z=<file>", "X -- -a=<x>", "-a=<значение> x", "[--name=<名前名前>] NOPE", "--2fa", "[--2fa] X", "--rm", "[-r | --rm] X", "X... Y", "[X...] [Y]", "[OPTIONS] -- X...", "[-o | -n] [X]", "-a - ", "[", "]", "X |", "[]", "()", "-z", "Z", "[-a", "-a...|", "X -- -a", "OPTIONS", "x",
 }
 
 var argAlphabet = []string{"x", "y", "-a", "-b", "-ab", "-ba", "-n", "5", "-n5", "-n=5", "--num=5", "--num", "-o", "v", "-ov", "-o=v", "--out=v", "--", "-", "", " v", "010", "-abn5", "--along", "--along=false", "-z", "-a=maybe", "-nx"}
@@ -81,6 +81,7 @@ var argAlphabet = []string{"x", "y", "-a", "-b", "-ab", "-ba", "-n", "5", "-n5",
 var fragments = []string{"-a", "[-a]", "-a...", "[-a...]", "[-b]", "-n", "[-n]", "[-o]", "-o...", "X", "[X]", "X...", "[-ab]", "[OPTIONS]", "--", "(-a | -b)", "[-a | X]", "(-n X)..."}
 
 func runPipeline() {
+	baseSpecs := len(specs)
 	for _, f := range fragments {
 		for _, g := range fragments {
 			specs = append(specs, f+" "+g)
@@ -91,7 +92,7 @@ func runPipeline() {
 	for _, a := range argAlphabet {
 		argvs = append(argvs, []string{a})
 	}
-	pairAlphabet := []string{"x", "-a", "-b", "-ab", "-n", "5", "-n5", "--num=5", "-o", "v", "-ov", "--out=v", "--", "-", "-aaa", "-z"}
+	pairAlphabet := []string{"", "--out", "-1", "--2fa", "--rm", "x", "-a", "-b", "-ab", "-n", "5", "-n5", "--num=5", "-o", "v", "-ov", "--out=v", "--", "-", "-aaa", "-z"}
 	for _, a := range pairAlphabet {
 		for _, b := range pairAlphabet {
 			argvs = append(argvs, []string{a, b})
@@ -101,10 +102,30 @@ func runPipeline() {
 		[]string{"-ab", "-n", "5"}, []string{"-o", "v", "-a"}, []string{"x", "y", "z"}, []string{"-aaa"}, []string{"-b", "-aaa"}, []string{"--out=v", "-n", "5"}, []string{"-", "-a", "x"})
 	argvs = append(argvs, []string{"-b", "-aaa", "x"}, []string{"-n", "5", "-aa", "-a"}, []string{"x", "-a", "y"}, []string{"-a", "x", "-b"}, []string{"-n", "5", "x", "-n", "6"},
 		[]string{"--out=v", "-b", "-a"}, []string{"-ab", "-o", "v"}, []string{"-o", "--", "x"}, []string{"--", "-a", "--"}, []string{"x", "", "y"}, []string{"-n", "", "x"})
-	envs := []map[string]string{{}, {"DS_O": "e1,e2", "DS_N": "7"}, {"DS_O": " ,", "DS_N": "zz", "DS_N2": "8"}}
-	for _, spec := range specs {
+	envs := []map[string]string{{}, {"DS_O": "e1,e2", "DS_N": "7"}, {"DS_O": " ,", "DS_N": "zz", "DS_N2": "8"}, {"DS_N": "3", "DS_O": "d"}}
+	var small [][]string
+	for _, av := range argvs {
+		ok := true
+		for _, a := range av {
+			switch a {
+			case "", "--out", "-1", "--2fa", "--rm", "-z", "-":
+				ok = false
+			}
+		}
+		if ok {
+			small = append(small, av)
+		}
+	}
+	for si, spec := range specs {
 		for ei, env := range envs {
-			for _, argv := range argvs {
+			if ei == 3 && !strings.Contains(spec, "n") && !strings.Contains(spec, "OPTIONS") {
+				continue
+			}
+			list := argvs
+			if si >= baseSpecs {
+				list = small
+			}
+			for _, argv := range list {
 				header("pipeline spec=%q env=%d argv=%q", spec, ei, argv)
 				guard(func() string { return onePipeline(spec, env, argv) })
 			}
@@ -129,6 +150,8 @@ func onePipeline(spec string, env map[string]string, argv []string) string {
 	n := app.Int(cli.IntOpt{Name: "n num", Value: 3, EnvVar: "DS_N DS_N2"})
 	x := app.Strings(cli.StringsArg{Name: "X", SetByUser: &xSet})
 	y := app.StringArg("Y", "dy", "")
+	twofa := app.BoolOpt("2fa", false, "")
+	rm := app.BoolOpt("r rm", false, "")
 	ran := false
 	app.Action = func() { ran = true }
 	err := app.Run(append([]string{"app"}, argv...))
@@ -136,7 +159,7 @@ func onePipeline(spec string, env map[string]string, argv []string) string {
 		// a rejected invocation may have filled some variables before the offending one (map order): not compared
 		return fmt.Sprintf("ran=%v err=true", ran)
 	}
-	return fmt.Sprintf("ran=%v err=false a=%v/%v b=%v o=%q/%v n=%d x=%q/%v y=%q", ran, *a, aSet, *b, *o, oSet, *n, *x, xSet, *y)
+	return fmt.Sprintf("ran=%v err=false a=%v/%v b=%v o=%q/%v n=%d x=%q/%v y=%q 2fa=%v rm=%v", ran, *a, aSet, *b, *o, oSet, *n, *x, xSet, *y, *twofa, *rm)
 }
 
 // ---- family 2: declarations (C18, C16) ---------------------------------------------------------------------------------
@@ -178,6 +201,31 @@ func runDeclarations() {
 	decl("clash then version", func(app *cli.Cli) { app.BoolOpt("V version", false, ""); app.Version("v version", "1.0") })
 	decl("only version", func(app *cli.Cli) { app.Version("v version", "1.0"); app.StringArg("SRC", "", "") })
 	decl("env-only option", func(app *cli.Cli) { app.String(cli.StringOpt{Name: "", EnvVar: "DS_O"}); app.StringArg("DST", "x", "") })
+	decl("argument with two valid env vars", func(app *cli.Cli) {
+		os.Setenv("DS_N", "7")
+		os.Setenv("DS_N2", "8")
+		n := app.Int(cli.IntArg{Name: "N", Value: 1, EnvVar: "DS_N DS_N2"})
+		s := app.Strings(cli.StringsArg{Name: "S", Value: []string{"d"}, EnvVar: "DS_N DS_N2"})
+		app.Spec = "[N] [S...]"
+		app.Before = func() { fmt.Printf("  n=%d s=%q\n", *n, *s) }
+	})
+	decl("two parameters sharing one default slice", func(app *cli.Cli) {
+		shared := []string{"x", "y"}
+		a := app.StringsOpt("a", shared, "")
+		b := app.StringsOpt("b", shared, "")
+		app.Spec = "[-a...] [-b...]"
+		app.Before = func() { fmt.Printf("  a=%q b=%q shared=%q\n", *a, *b, shared) }
+		os.Args = os.Args[:1]
+	})
+	decl("aliases with blanks and dashes", func(app *cli.Cli) {
+		app.Command("start  run", "", cli.ActionCommand(func() { fmt.Println("  start ran") }))
+		app.Command("list -l", "", cli.ActionCommand(func() { fmt.Println("  list ran") }))
+		app.Command("tabbed\tt", "", cli.ActionCommand(func() { fmt.Println("  tabbed ran") }))
+		for _, argv := range [][]string{{"run"}, {""}, {"-l"}, {"t"}, {"list"}} {
+			err := app.Run(append([]string{"app"}, argv...))
+			fmt.Printf("  %q err=%v\n", argv, err != nil)
+		}
+	})
 	decl("ptr forms", func(app *cli.Cli) {
 		var i []int
 		var f []float64
@@ -241,14 +289,15 @@ func runHelp() {
 		e1 := app.Run([]string{"app", "-h"})
 		e2 := app.Run([]string{"app", "-h"})
 		e3 := app.Run([]string{"app", "-V"})
-		return fmt.Sprintf("errs=%v,%v,%v", e1, e2, e3)
+		e4 := app.Run([]string{"app", "secret"})
+		return fmt.Sprintf("errs=%v,%v,%v,%v", e1, e2, e3, e4)
 	})
 }
 
 // ---- family 4: routing and interceptors (C04, C05, C07) ------------------------------------------------------------------
 
 func runFlow() {
-	for _, fault := range []string{"", "root.before", "sub.before", "leaf.action", "leaf.after", "sub.after", "root.after", "leaf.action+sub.after"} {
+	for _, fault := range []string{"", "leaf.action!runtime", "sub.before!error", "root.before", "sub.before", "leaf.action", "leaf.after", "sub.after", "root.after", "leaf.action+sub.after"} {
 		for _, argv := range [][]string{{"sub", "leaf"}, {"s", "leaf", "x"}, {"sub"}, {"sub", "nope"}, {"-g", "sub", "leaf"}, {"sub", "-q", "leaf"}, {"sub", "leaf", "-h"}, {}, {"other"}} {
 			for _, policy := range []flag.ErrorHandling{flag.ContinueOnError, flag.PanicOnError} {
 				fault, argv, policy := fault, argv, policy
@@ -261,6 +310,13 @@ func runFlow() {
 							for _, f := range strings.Split(fault, "+") {
 								if f == name {
 									panic("boom@" + name)
+								}
+								if f == name+"!runtime" {
+									var m map[string]int
+									m["x"] = 1
+								}
+								if f == name+"!error" {
+									panic(fmt.Errorf("error@%s", name))
 								}
 							}
 						}
@@ -362,8 +418,10 @@ func runCustom() {
 				}
 				app.Action = func() {}
 				err := app.Run([]string{"app", "--val=" + t})
+				r1 := fmt.Sprintf("%v:%s", err != nil, show())
+				err = app.Run([]string{"app", "--val", t})
 				keys = append(keys, kind)
-				res[kind] = fmt.Sprintf("%v:%s", err != nil, show())
+				res[kind] = r1 + "|" + fmt.Sprintf("%v:%s", err != nil, show())
 			}
 			sort.Strings(keys)
 			var out []string
